@@ -567,6 +567,36 @@ def n9_match_guard(src, log):
         log.append(f"N9 match guard `if {' '.join(guard.split())}` -> if/else inside the arm (fallback arm `_ => {' '.join(other.split())[:30]}`)")
 
 
+def n11_ref_patterns(src, log):
+    """if let Some(&x) = E { B }  ->  if let Some(__vx_refK) = E { let x = *__vx_refK; B }
+    (reference pattern on a Copy value = explicit dereference)"""
+    k = 0
+    while True:
+        toks = lex(src)
+        hit = None
+        for i, t in enumerate(toks):
+            if t.text == "if" and t.kind == "ident" and i + 7 < len(toks) and toks[i + 1].text == "let" \
+                    and toks[i + 2].text == "Some" and toks[i + 3].text == "(" and toks[i + 4].text == "&" \
+                    and toks[i + 5].kind == "ident" and toks[i + 6].text == ")" and toks[i + 7].text == "=":
+                d = t.depth
+                j = i + 8
+                while j < len(toks) and not (toks[j].text == "{" and toks[j].depth == d):
+                    if toks[j].kind == "open":
+                        j = toks[j].mate
+                    j += 1
+                hit = (i, j)
+                break
+        if hit is None:
+            return src
+        i, j = hit
+        k += 1
+        name = toks[i + 5].text
+        edits = [(toks[i + 4].start, toks[i + 5].end, f"__vx_ref{k}"),
+                 (toks[j].end, toks[j].end, f" let {name} = *__vx_ref{k};")]
+        src = _apply(src, edits)
+        log.append(f"N11 pattern Some(&{name}) -> Some(__vx_ref{k}) + explicit deref")
+
+
 def nvis(src, log):
     """pub(crate) / pub(super) / pub(in ..)  ->  pub   (a single-file unit has one crate and one module;
     widening visibility cannot change behaviour)"""
@@ -590,6 +620,8 @@ def normalise(src, rules, log):
     for r in rules:
         if r == "n5":
             src = n5_derives(src, log)
+        elif r == "n11":
+            src = n11_ref_patterns(src, log)
         elif r == "n9":
             src = n9_match_guard(src, log)
         elif r == "nvis":
